@@ -15,14 +15,15 @@ REQUIRED_THEOREMS = ["Gv.Props.C01." + n for n in [
     "three_frames_same_count_iff",
     # names stay pairwise distinct unless the caller edits names
     "step_names_nodup", "run_names_nodup",
-    # refinement: Go-shaped container = plain list reference model, all 36 operations, all histories
-    "step_refines", "run_refines", "compress_empty_unchanged", "good_of_empty_bag", "good_of_empty_align", "obs_byName", "obs_idByName", "obs_length"]]
+    # refinement: Go-shaped container = plain list reference model, all 39 operations, all histories
+    "step_refines", "run_refines", "diffWithFirst_agrees_with_row_model", "replaceMatchChars_agrees_with_row_model",
+    "step_diffFirst_is_row_model", "compress_empty_unchanged", "good_of_empty_bag", "good_of_empty_align", "obs_byName", "obs_idByName", "obs_length"]]
 LEVEL_TEXT = ("Lean theorems, all by induction over operation histories of any length and for arbitrary arguments: "
-              "(1) refinement `step_refines` / `run_refines`: for each of the 36 operations of the history language (add under the "
+              "(1) refinement `step_refines` / `run_refines`: for each of the 39 operations of the history language (add under the "
               "three duplicate-name policies, ignore, clear, append, concat, rename, appendId, cleanNames, trimNames, trimAuto, sort, "
               "permute=ShuffleSequences, filter, dedup, rmSeqs/RemoveGapSeqs, translate, clone, sample, toUpper, toLower, replace, "
               "setChar, trimSeqs, autoAlpha, revcomp=ReverseComplement, replaceChar, rmGapSites=RemoveGapSites, compress=Compress, unalign=Unalign - after which the history continues on the NEW plain sequence set it returns, "
-              "renameRe=RenameRegexp with the values of the regular-expression substitution supplied per row, setAlpha=SetAlphabet, revcompSeqs=ReverseComplementSequences on a list of names, diffFirst=DiffWithFirst, replaceMatch=ReplaceMatchChars, mask=Mask, maskOcc=MaskOccurences/MaskUnique), whenever the plain list-of-(name,sequence) reference model specifies the outcome, the "
+              "renameRe=RenameRegexp with the values of the regular-expression substitution supplied per row, setAlpha=SetAlphabet, revcompSeqs=ReverseComplementSequences on a list of names, diffFirst=DiffWithFirst, replaceMatch=ReplaceMatchChars, mask=Mask, maskOcc=MaskOccurences/MaskUnique, rmCharSites=RemoveCharacterSites in its general form - character set, cutoff, ends mode, case folding, gaps / wildcards not counted, reversed selection -, rmMajSites=RemoveMajorityCharacterSites, replaceRe=Replace with a regular expression with the new sequence of every row supplied), whenever the plain list-of-(name,sequence) reference model specifies the outcome, the "
               "implementation-shaped model (ordered rows with pointer ids + separate name index + allocation counter + cached "
               "alignment length) yields exactly that content (names, row order, residues, policy, alphabet, kind) and that status, and "
               "the strong invariant (index exact and pointing to the first row of each name, rectangular, alphabet never BOTH) holds "
@@ -31,21 +32,21 @@ LEVEL_TEXT = ("Lean theorems, all by induction over operation histories of any l
               "without Unalign; `kind_only_decreases`: Unalign goes one way) the cached length equals the length of every "
               "row and is -1 iff there is no row, after every operation whatever its outcome, except the excluded cases (three-frame "
               "Translate of an alignment with L mod 3 != 2 - `translate_three_frames_not_rect` is the kernel-checked violation - and a "
-              "Replace/Concat that itself returned an error); (3) `step_names_nodup` / `run_names_nodup`: names stay pairwise distinct "
+              "Replace (literal or regular expression) / Concat that itself returned an error); (3) `step_names_nodup` / `run_names_nodup`: names stay pairwise distinct "
               "under every operation other than the caller's own name edits (Unalign included: `unalign_rows_of_distinct_names` - the new set "
-              "shows exactly the degapped rows); (4) the weak representation invariant for all operations "
+              "shows exactly the degapped rows); (3b) `diffWithFirst_agrees_with_row_model` / `replaceMatchChars_agrees_with_row_model`: on every rectangular alignment the container-level DiffWithFirst / ReplaceMatchChars (row pointers, cached length, in-place writes) never panic and show exactly the rows the row-level models of property C04 (`Model.diffWithFirst`, `Model.replaceMatchChars`) compute; (4) the weak representation invariant for all operations "
               "including name collisions made by the caller (`step_inv`/`run_inv`), agreement of the by-name access paths, rejection "
               "of a wrong-length sequence with the state unchanged. Tied to /repo by a differential correspondence on random histories "
               "that compares the full observation vector (iteration, by-index, by-name through the index and by linear scan, "
               "Sequences()) after every step.")
 LEVEL_NOTE = ("Trusted: Lean kernel; harness/oracle/driver; the hand-written model of seqbag.go/align.go is validated against the "
-              "implementation on generated histories only; regexp (CleanNames is modelled directly; for RenameRegexp the harness "
-              "evaluates Go's regexp on every name before the call and hands the values to the model in the step's status), fmt, "
+              "implementation on generated histories only; regexp (CleanNames is modelled directly; for RenameRegexp and the regex Replace the harness "
+              "evaluates Go's regexp on every name / every sequence before the call and hands the values to the model in the step's status), fmt, "
               "sort.SliceStable, math/rand (replica) are external. Command line `rename -e`, `replace -e`, `subset -e`: the expectations use a hand-written "
               "model of a small, delimited subset of Go's regexp (lean/Gv/Model/Regex.lean: literals, `.`, `\\d`, classes, greedy `* + ?`, `^` / `$`, one "
               "capture group; ReplaceAllString with `$1` / `${1}` / `$0` templates, MatchString) which every run validates against the real package on "
               "generated (pattern, template, input) triples (harness op `regexsub`); a pattern outside the subset leaves the case undecided.")
-TECHNIQUE = "Lean 4 proof (refinement of the Go-shaped container to a plain-list reference model for all 36 operations, representation / rectangularity / distinct-names invariants, all by induction over histories) + differential correspondence"
+TECHNIQUE = "Lean 4 proof (refinement of the Go-shaped container to a plain-list reference model for all 39 operations, representation / rectangularity / distinct-names invariants, all by induction over histories) + differential correspondence"
 RULE = ("random histories of 1..12 (quick) / 1..40 (thorough) operations over alignments (0..5 rows x 0..8 columns) and "
         "sequence sets with ragged lengths, duplicate names, special characters in names, all three duplicate-name policies, "
         "boundary arguments; stratum around Unalign / RenameRegexp (empty object, one row, all-gap rows, names made equal before "
@@ -53,7 +54,7 @@ RULE = ("random histories of 1..12 (quick) / 1..40 (thorough) operations over al
         "sequence set); stratum around the in-place residue operations (ReverseComplementSequences with known / unknown / repeated "
         "names, names shared by two rows, residues without a complement, wrong alphabet, no row, no column, ragged sequence sets; DiffWithFirst / ReplaceMatchChars on rows close to the first one, points "
         "already present, one row, no row, rows left ragged by a failed Replace); stratum around Mask / MaskUnique / MaskOccurences (windows at and beyond both "
-        "ends, every replacement mode, protected gaps / reference residues, reference absent or shared by two rows, no row, no column); the full observation vector is compared after every operation; non-trivial = at least two "
+        "ends, every replacement mode, protected gaps / reference residues, reference absent or shared by two rows, no row, no column); stratum around RemoveCharacterSites (general) / RemoveMajorityCharacterSites / RemoveCharacterSeqs (columns of one character, of gaps or wildcards only, exact ties at cutoff 1/2, mixed case, qualifying runs at both ends, all / no column qualifying, empty and several-character sets, cutoffs 0, 1, exact fractions and outside [0,1], every option combination, no row, one row, no column, proteins, rows left ragged by a failed Replace); stratum around Replace with a regular expression (length-preserving and length-changing substitutions, empty matches, anchors, groups, expressions that do not compile, no row, one row, no column, shared names, ragged sequence sets, then residue writes and cleaning on the rows it left); the full observation vector is compared after every operation; non-trivial = at least two "
         "state-changing operations")
 PARTIAL = ["the refinement theorem claims the outcome of a step only where the reference model specifies it (`Spec.stepOp` returns "
            "`some`); by design it returns `none` - and nothing is claimed, the history theorem `run_refines` stops there - for: a "
@@ -64,7 +65,7 @@ PARTIAL = ["the refinement theorem claims the outcome of a step only where the r
            "ShuffleSequences / Sample are modelled with their permutation supplied (Op.permute / Op.sample; the theorems assume it is a "
            "genuine permutation of the positions, `OpWF`/`OpWFR`); in the correspondence the oracle resolves it with the Go math/rand "
            "replica of C10 (that the replica's shuffle is a permutation for every seed is C10.shuffle_every_seed)",
-           "the history language (Lean `Op`, oracle decoder, generator) has 36 operations (ReverseComplement, ReplaceChar, "
+           "the history language (Lean `Op`, oracle decoder, generator) has 39 operations (Replace with a regular expression is modelled from the point where the expression has been evaluated: `Op.replaceRe ok seqs` carries whether it compiled and the value of ReplaceAllString for the sequence of every row - the harness computes them with Go's regexp before the call and reports them in the step's status; the model covers what the method does with them: in-place overwrite through the row pointers, cached length untouched, the final scan of an alignment that reports rows of another length; the general RemoveCharacterSites and RemoveMajorityCharacterSites run the C12 model functions on the rows as they are - cached length, write-back in place, index panic on a short row - and the reference states them as `Spec.cleanByQual` on the qualification lists `Spec.charQual` (selected residues against residues that count) / `Spec.majQual` (the counts of MaxCharStats, meaning: C14.maxCharSite_is_argmax); RemoveMajorityCharacterSites does not reset a cutoff outside [0,1] although its documentation says so: the model follows the code (`cutoffTestRaw`), the reference leaves that step unspecified; ReverseComplement, ReplaceChar, "
            "RemoveGapSites and Compress through the C06 / C12 / C13 models; Unalign, whose result replaces the current object; "
            "RenameRegexp; SetAlphabet; ReverseComplementSequences, which reaches its rows through the name index; DiffWithFirst and ReplaceMatchChars, which rewrite every row but the first against the first - an index panic, `PANIC`, when a row is too short, possible only after an operation that reported an error; Mask and MaskOccurences / MaskUnique through the C15 row-level model, with the reference sequence looked up in the name index, the cached length, in-place write-back and the index panics of short rows - the reference runs the same C15 function on the plain rows, whose meaning is C15.mask_cells / maskOcc_cells / mask_ok_iff / maskOcc_ok_iff; residues >= 130 with MAJ, an index panic in Go, are outside the model as in C15). RenameRegexp is modelled from the point where the regular expression has been evaluated: `Op.renameRe ok "
            "names` carries whether it compiled and the value of ReplaceAllString for every row (Go's regexp is external); the model "
@@ -196,10 +197,11 @@ def gen_hist(rng, maxops):
             ops.append("unalign")
             changing += 1
         elif k < 0.984:
-            ops.append(renamere_op(rng))
+            ops.append(renamere_op(rng) if rng.random() < 0.6 else replacere_op(rng))
             changing += 1
         else:
             ops.append(rng.choice(["revcomp", "compress", "revcompseqs:" + names_arg(rng, pool), "diffwithfirst", "replacematch", mask_op(rng, pool, curL[0]),
+                                   sites_op(rng), sites_op(rng),
                                    "rmgapsites:%s:%d" % (rng.choice(["0", "1", "1/2", "1/3", "2/3"]), rng.randint(0, 1)),
                                    "replacechar:%s:%d:%s" % (pct(rng.choice(pool + ["zz"])), rng.randint(-1, 8), rng.choice("ACGT-N"))]))
             changing += 1
@@ -367,6 +369,152 @@ def gen_mask(rng):
     return Case("hist", ["A", alpha_id, prow(rows), ";".join(ops)], True, "hist-mask")
 
 
+CHARSETS = ["%2D", "%2D", "N", "n", "A", "a", "AC", "ac", "%2DN", "X", "x", "%2A", "_", "%2E", "ACGT", "a%2D", "NX"]
+CUTS = ["0", "0", "1", "1", "1/2", "1/2", "1/3", "2/3", "1/4", "3/4", "1/5", "2", "3/2"]
+
+
+def sites_op(rng):
+    """RemoveCharacterSites (general), RemoveMajorityCharacterSites, and RemoveGapSites for comparison"""
+    k = rng.random()
+    if k < 0.55:
+        return "rmcharsites:%s:%s:%d:%d:%d:%d:%d" % (rng.choice(CHARSETS), rng.choice(CUTS), rng.randint(0, 1), rng.randint(0, 1),
+                                                     rng.randint(0, 1), rng.randint(0, 1), rng.choice([0, 0, 0, 1]))
+    if k < 0.92:
+        return "rmmajsites:%s:%d:%d:%d" % (rng.choice(CUTS), rng.randint(0, 1), rng.randint(0, 1), rng.randint(0, 1))
+    return "rmgapsites:%s:%d" % (rng.choice(CUTS), rng.randint(0, 1))
+
+
+def seqs_op(rng):
+    """RemoveCharacterSeqs (general form) / RemoveGapSeqs"""
+    if rng.random() < 0.8:
+        return "rmseqs:%s:%s:%d:%d:%d" % (rng.choice("-NnAaXx*."), rng.choice(CUTS), rng.randint(0, 1), rng.randint(0, 1), rng.randint(0, 1))
+    return "rmgapseqs:%s:%d" % (rng.choice(CUTS), rng.randint(0, 1))
+
+
+def gen_sites(rng):
+    """histories around RemoveCharacterSites (general: character set incl. empty and several characters, cutoffs 0 / 1 / exact
+    fractions / outside [0,1], ends mode, case folding, gaps and wildcards ignored, reversed selection), RemoveMajorityCharacterSites
+    and RemoveCharacterSeqs (general): columns made of one character, of gaps / wildcards only (nothing counts), exact ties (half
+    / half at cutoff 1/2), mixed case, runs of qualifying columns at the start and at the end separated by non-qualifying ones
+    (ends mode), every column qualifying, none; no row, one row, no column; proteins (X/x is the wildcard); rows left ragged by a
+    failed Replace (index panic on both sides); mixed with operations that empty, rebuild, rename or reorder the container"""
+    alpha_id = rng.choice([1, 1, 1, 0, 3, 2])
+    wild = "Xx" if alpha_id == 0 else "Nn"
+    base = "ARNDCQ" if alpha_id == 0 else "ACGT"
+    shape = rng.choice(["mixed", "mixed", "runs", "runs", "ties", "case", "allqual", "empty", "one", "nocols"])
+    nrows = {"empty": 0, "one": 1, "ties": rng.choice([2, 4])}.get(shape, rng.randint(2, 5))
+    L = 0 if shape == "nocols" else rng.choice([1, 2, 3, 5, 8])
+
+    def column(kind):
+        if kind == "gap":
+            return "-" * nrows
+        if kind == "wild":
+            return "".join(rng.choice(wild) for _ in range(nrows))
+        if kind == "gapwild":
+            return "".join(rng.choice("-" + wild) for _ in range(nrows))
+        if kind == "one":
+            return rng.choice(base) * nrows
+        if kind == "case":
+            c = rng.choice(base)
+            return "".join(rng.choice([c, c.lower()]) for _ in range(nrows))
+        if kind == "tie":
+            a, b = rng.sample(base + "-", 2)
+            h = nrows // 2
+            col = list(a * h + b * (nrows - h))
+            rng.shuffle(col)
+            return "".join(col)
+        return "".join(rng.choice(base + base.lower() + "-" + wild[0]) for _ in range(nrows))
+
+    if shape == "runs":
+        lead, trail = rng.randint(0, 2), rng.randint(0, 2)
+        kinds = ["gap"] * lead + [rng.choice(["plain", "one", "gap", "plain"]) for _ in range(max(0, L - lead - trail))] + ["gap"] * trail
+        kinds = kinds[:L] if L else []
+        if len(kinds) < L:
+            kinds += ["plain"] * (L - len(kinds))
+    elif shape == "ties":
+        kinds = [rng.choice(["tie", "tie", "one", "gap"]) for _ in range(L)]
+    elif shape == "case":
+        kinds = [rng.choice(["case", "case", "plain", "wild"]) for _ in range(L)]
+    elif shape == "allqual":
+        kinds = [rng.choice(["gap", "gapwild"])] * L
+    else:
+        kinds = [rng.choice(["plain", "plain", "gap", "wild", "gapwild", "one", "case", "tie"]) for _ in range(L)]
+    cols = [column(k) for k in kinds]
+    pool = rng.sample(NAMES, 5)
+    rows = [(pool[i % len(pool)], "".join(c[i] for c in cols)) for i in range(nrows)]
+    ops = []
+    pre = rng.random()
+    if pre < 0.12:
+        ops.append(rng.choice(["replace:A:GG", "replace:-:", "translate:-1:0"]))        # may leave the rows ragged
+    elif pre < 0.2:
+        olds = rng.sample(pool, 2)
+        ops.append("rename:" + "/".join(pct(o) + "/" + pct(olds[0]) for o in olds))
+    for _ in range(rng.randint(1, 5)):
+        k = rng.random()
+        if k < 0.6:
+            ops.append(sites_op(rng))
+        elif k < 0.75:
+            ops.append(seqs_op(rng))
+        else:
+            ops.append(rng.choice([
+                "add:%s:%s" % (pct(rng.choice(pool)), rseq(rng, base + "-", rng.choice([L, L, 1, 2]))), "sort", "compress", "clear",
+                "shuffle:%d" % rng.randint(0, 999), "dedup:0", "dedup:1", "toupper", "tolower", "autoalpha", "unalign", "clone",
+                "setalpha:%d" % rng.choice([0, 1]), "trimseqs:1:%d" % rng.randint(0, 1), "revcomp", "diffwithfirst",
+                "concat:" + prow([(n, rseq(rng, base + "-", 2)) for n in rng.sample(pool + ["zz"], 2)]),
+                "setchar:%d:%d:%s" % (rng.randint(0, 3), rng.randint(0, max(L, 1)), rng.choice("-Nn")),
+                "rename:" + pct(rng.choice(pool)) + "/" + pct(rng.choice(pool))]))
+    return Case("hist", ["A", alpha_id, prow(rows), ";".join(ops)], True, "hist-sites-" + shape)
+
+
+# regular expressions / replacements of `replacere` on sequences (Go syntax; the last ones do not compile)
+SEQ_REGEXES = ["A", "[AC]", "[acgt]", "-", "-+", "^-", "-$", "^-+", "N+", "(?i)a", ".", "^.", ".$", "^", "$", "(A)(C)", "(.)(.)", "A*",
+               "[^ACGT-]", "\\.", "\\*", "AC|GT", "X", "(", "[a", "*a", "A{2,1}", "\\"]
+SEQ_REPLACES = ["N", "-", "", "GG", "$1", "${2}${1}", "$0$0", "n", ".", "X", "$2$1", "?"]
+
+
+def replacere_op(rng):
+    return "replacere:%s:%s" % (pct(rng.choice(SEQ_REGEXES)), pct(rng.choice(SEQ_REPLACES)))
+
+
+def gen_replacere(rng):
+    """histories around Replace with a regular expression (new sequences computed by Go's regexp in the harness):
+    length-preserving substitutions (one character or class by one character, swapped groups) and length-changing ones (an
+    alignment then reports an error and keeps the rows as written: ragged, later index panics on both sides), empty matches,
+    anchors, expressions that do not compile, no row, one row, no column, rows sharing a name, sequence sets with ragged rows;
+    followed by by-name accesses, residue writes, site and sequence cleaning, insertions"""
+    kind = rng.choice("AAAB")
+    alpha_id = rng.choice([1, 1, 1, 0, 3] if kind == "B" else [1, 1, 1, 0, 3, 2])
+    alpha = "ARNDCX-" if alpha_id == 0 else rng.choice(["ACGT-", "ACGTacgtN-", "AC-", "ACGT.*-"])
+    shape = rng.choice(["plain", "plain", "plain", "empty", "one", "nocols", "dups"])
+    L = 0 if shape == "nocols" else rng.choice([1, 2, 3, 5, 8])
+    pool = rng.sample(NAMES, 5)
+    nrows = {"empty": 0, "one": 1}.get(shape, rng.randint(2, 5))
+    rows = []
+    for i in range(nrows):
+        ln = L if kind == "A" else rng.choice([L, L, rng.randint(0, 6)])
+        rows.append((rng.choice(pool) if shape == "dups" else pool[i % len(pool)], rseq(rng, alpha, ln)))
+    ops = []
+    if rng.random() < 0.2:
+        olds = rng.sample(pool, 2)
+        ops.append("rename:" + "/".join(pct(o) + "/" + pct(olds[0]) for o in olds))
+    for _ in range(rng.randint(1, 4)):
+        k = rng.random()
+        if k < 0.6:
+            ops.append(replacere_op(rng))
+        elif k < 0.7:
+            ops.append("replacere:%s:%s" % (pct(rng.choice(["[AC]", "[acgt]", "-", ".", "[^ACGT-]", "N"])), pct(rng.choice(["N", "-", "n", ".", "X"]))))
+        else:
+            ops.append(rng.choice([
+                "add:%s:%s" % (pct(rng.choice(pool)), rseq(rng, alpha, L)), "sort", "dedup:0", "clone", "toupper", "autoalpha",
+                "setalpha:%d" % rng.choice([0, 1]), "replace:A:T", "replace:A:", "diffwithfirst", "replacematch", "compress",
+                "rmgapsites:1:0", sites_op(rng), seqs_op(rng), "trimseqs:1:0", "unalign", "revcomp", "clear",
+                "setchar:%d:%d:N" % (rng.randint(0, 3), rng.randint(0, max(L, 1))),
+                "replacechar:%s:%d:%s" % (pct(rng.choice(pool)), rng.randint(0, max(L, 1)), rng.choice("ACGT-N")),
+                "concat:" + prow([(n, rseq(rng, alpha, 2)) for n in rng.sample(pool + ["zz"], 2)]),
+                "mask:_:0:%d:N:0:0" % max(L, 1), "filter:1:-1", "shuffle:%d" % rng.randint(0, 999)]))
+    return Case("hist", [kind, alpha_id, prow(rows), ";".join(ops)], True, "hist-replacere-" + shape)
+
+
 def gen_inplace(rng):
     """histories around the operations that rewrite residues in place without touching names, order or lengths:
     ReverseComplementSequences (named subset: known / unknown / repeated names, a name two rows share after a rename, residues
@@ -414,6 +562,10 @@ def gen_inplace(rng):
 
 
 def _gen_core(rng, tier):
+    for _ in range(300 if tier == "quick" else 3000):
+        yield gen_replacere(rng)
+    for _ in range(400 if tier == "quick" else 4000):
+        yield gen_sites(rng)
     for _ in range(300 if tier == "quick" else 3000):
         yield gen_inplace(rng)
     for _ in range(300 if tier == "quick" else 3000):
